@@ -132,7 +132,8 @@ def run(P: Program, rep: Report):
         a = o["after"]
         inv = None
         blk = a["blocks"]
-        if len(set(map(str, blk))) != len(blk):
+        plain = [str(b) for b in blk if b[0] == "blk"]
+        if len(set(plain)) != len(plain):
             inv = "a block is listed twice"
         ents = [b[1] for b in blk if b[0] == "blk" and str(b[1]).startswith("E")]
         if a["entries"] != ents:
